@@ -21,6 +21,8 @@ import (
 //verif:stub (*os/exec.Cmd).Start stubCmdStart
 //verif:stub (*os/exec.Cmd).Wait stubCmdWait
 //verif:stub (*os/exec.Cmd).String stubCmdString
+//verif:stub (*os/exec.Cmd).StdoutPipe stubStdoutPipe
+//verif:stub (*os/exec.Cmd).StderrPipe stubStderrPipe
 
 type childPipe struct {
 	ch        chan []byte // kernel pipe buffer: chunks written and not yet read
@@ -60,10 +62,44 @@ var (
 	c14OutData       [][]byte
 	c14ErrData       [][]byte
 	c14Started       bool
+	c14OutPiped      bool
+	c14ErrPiped      bool
+	c14Copiers       []chan struct{}
 )
+
+// StdoutPipe / StderrPipe: the read ends of the child's output pipes.
+func stubStdoutPipe(c *exec.Cmd) (io.ReadCloser, error) { c14OutPiped = true; return c14Out, nil }
+func stubStderrPipe(c *exec.Cmd) (io.ReadCloser, error) { c14ErrPiped = true; return c14Err, nil }
+
+// execCopy is what os/exec does for a descriptor that was given an io.Writer instead of a pipe:
+// a goroutine of its own copies the child's output into the writer; Wait joins it.
+func execCopy(dst io.Writer, src *childPipe, done chan struct{}) {
+	verifActor()
+	for {
+		chunk, ok := <-src.ch
+		if !ok {
+			break
+		}
+		if _, err := dst.Write(chunk); err != nil {
+			break // the writer refuses: the rest of the child's output on this descriptor is lost
+		}
+	}
+	close(done)
+}
 
 func stubCmdStart(c *exec.Cmd) error {
 	c14Started = true
+	c14Copiers = nil
+	if !c14OutPiped && c.Stdout != nil {
+		d := make(chan struct{})
+		c14Copiers = append(c14Copiers, d)
+		go execCopy(c.Stdout, c14Out, d)
+	}
+	if !c14ErrPiped && c.Stderr != nil {
+		d := make(chan struct{})
+		c14Copiers = append(c14Copiers, d)
+		go execCopy(c.Stderr, c14Err, d)
+	}
 	go func() {
 		verifActor()
 		for _, d := range c14OutData {
@@ -80,6 +116,9 @@ func stubCmdStart(c *exec.Cmd) error {
 }
 func stubCmdWait(c *exec.Cmd) error {
 	<-c14ChildDone
+	for _, d := range c14Copiers {
+		<-d // Wait waits for exec's own copying goroutines
+	}
 	c14WaitClosed = true // exec closes the pipes after seeing the command exit
 	return c14ExitErr
 }
@@ -121,8 +160,12 @@ func HarnessC14Relay() {
 	if failing {
 		c14ExitErr = exitError{}
 	}
-	pr, pw := io.Pipe()
-	sh := &CmdShell{cmd: &exec.Cmd{}, sout: c14Out, serr: c14Err, outr: pr, outw: pw}
+	c14OutPiped, c14ErrPiped = false, false
+	sh, nerr := NewCmdShell(&exec.Cmd{})
+	verifAssert(nerr == nil && sh != nil, "C14.new-cmd-shell")
+	if sh == nil {
+		return
+	}
 	var gotOut, gotErr []byte
 	var readErr error
 	consumed := make(chan struct{})
